@@ -125,10 +125,11 @@ func c10Check(c c10Case) (viol string) {
 var c10ValueAlphabet = []string{`"`, "a", "\n", "é", " ", `\`}
 
 type c10Args struct {
-	Space string `json:"space"` // trees | values | groupby
-	Depth int    `json:"depth"`
-	Arity int    `json:"arity"`
-	Len   int    `json:"len"`
+	Space  string `json:"space"` // trees | values | groupby
+	Depth  int    `json:"depth"`
+	Arity  int    `json:"arity"`
+	Len    int    `json:"len"`
+	Leaves int    `json:"leaves"` // 0 = all three
 }
 
 func c10Worker(ctx *rt.Ctx, job *rt.Job) []*rt.Violation {
@@ -147,6 +148,9 @@ func c10Worker(ctx *rt.Ctx, job *rt.Job) []*rt.Violation {
 		return true
 	}
 	leaves := []*model.Expr{model.Eq("a", "x"), model.Eq("b1", "$2"), model.Eq("c", "q\"\n")}
+	if a.Leaves > 0 {
+		leaves = leaves[:a.Leaves]
+	}
 	switch a.Space {
 	case "trees":
 		// enumerate without materialising the top level: operands are trees of depth-1
@@ -204,7 +208,7 @@ func c10Worker(ctx *rt.Ctx, job *rt.Job) []*rt.Violation {
 			}
 		}
 		if job.Shard == 0 {
-			ctx.Cov.Sample(1, map[string]any{"space": "trees", "depth": a.Depth, "arity": a.Arity, "count": n, "example": model.Or(model.And(leaves[0]), model.Not(model.Or(leaves[1], leaves[2]))).String()})
+			ctx.Cov.Sample(1, map[string]any{"space": "trees", "depth": a.Depth, "arity": a.Arity, "count": n, "example": model.Or(model.And(leaves[0]), model.Not(model.Or(leaves[1], leaves[len(leaves)-1]))).String()})
 		}
 	case "values":
 		cnt := 0
@@ -259,6 +263,7 @@ func c10Run(ctx *rt.Ctx) []*rt.Violation {
 		add(c10Args{Space: "values", Len: 5}, 8)
 	} else {
 		add(c10Args{Space: "trees", Depth: 2, Arity: 3}, 16)
+		add(c10Args{Space: "trees", Depth: 3, Arity: 2, Leaves: 2}, 16) // deep nestings (NOT over single-operand nodes over ...) on two leaves
 		add(c10Args{Space: "values", Len: 4}, 2)
 	}
 	add(c10Args{Space: "groupby"}, 1)
